@@ -284,3 +284,105 @@ func textualOrderKept(ctx *core.Ctx, r *core.Report, fns []*ssa.Function) int {
 	}
 	return n
 }
+
+// ---------------------------------------------------------------------------
+// append-aliasing (C07, C02, shared)
+//
+// `y[k] = append(x, more...)` inside a loop in which x stays the same appends
+// to one and the same x several times. When x has spare capacity every append
+// writes into x's own backing array and all results share it: the last one
+// wins (fields=a/b/c/(d;e) became a/b/c/e twice). An append whose result goes
+// back to where x came from (x = append(x, …), the ordinary growing of a slice)
+// is not concerned, nor is one whose base was made for the purpose in the same
+// iteration.
+// ---------------------------------------------------------------------------
+
+func appendAliasing(ctx *core.Ctx, r *core.Report, fns []*ssa.Function) int {
+	n := 0
+	for _, f := range fns {
+		core.Instrs(f, func(b *ssa.BasicBlock, in ssa.Instruction) {
+			c, ok := in.(*ssa.Call)
+			if !ok {
+				return
+			}
+			if bi, ok := c.Common().Value.(*ssa.Builtin); !ok || bi.Name() != "append" {
+				return
+			}
+			body, _ := innerLoopOf(b)
+			if body == nil {
+				return
+			}
+			base := c.Common().Args[0]
+			// a base made in this iteration (make, literal, another append of a fresh slice) is its own array
+			switch x := core.Strip(base).(type) {
+			case *ssa.MakeSlice, *ssa.Const:
+				return
+			case *ssa.Slice:
+				if _, isAlloc := x.X.(*ssa.Alloc); isAlloc {
+					return
+				}
+			case *ssa.Call:
+				if bi, ok := x.Common().Value.(*ssa.Builtin); ok && bi.Name() == "append" {
+					return
+				}
+			}
+			bi, isInstr := base.(ssa.Instruction)
+			definedInLoop := isInstr && body[bi.Block()]
+			if _, isPhi := base.(*ssa.Phi); isPhi && definedInLoop {
+				return // the growing slice itself, carried round the loop
+			}
+			if definedInLoop {
+				// defined in this innermost loop: a fresh load per iteration — fine unless it is
+				// the element of an outer range (dest of the outer loop, constant for this loop): handled by outer check
+				// a load of the same location the result is stored to is ordinary growth
+			}
+			// where does the result go?
+			var sameLoc, otherLoc bool
+			if c.Referrers() != nil {
+				for _, ref := range *c.Referrers() {
+					st, isSt := ref.(*ssa.Store)
+					if !isSt {
+						if ph, isPhi := ref.(*ssa.Phi); isPhi && ssa.Value(ph) == base {
+							sameLoc = true
+						}
+						continue
+					}
+					// the location base was loaded from
+					if u, isU := core.Strip(base).(*ssa.UnOp); isU && sameAddr(u.X, st.Addr) {
+						sameLoc = true
+					} else {
+						otherLoc = true
+					}
+				}
+			}
+			if sameLoc || !otherLoc {
+				return
+			}
+			if definedInLoop {
+				return
+			}
+			n++
+			r.Ob("append-aliasing", fmt.Sprintf("%s/append-in-loop#%d", core.FnName(f), n), ctx.Pos(c.Pos()), false,
+				"inside a loop the same slice is used as the base of several appends whose results are kept separately: when that slice has spare capacity the results share its array and the last append overwrites the others")
+		})
+	}
+	return n
+}
+
+func sameAddr(a, b ssa.Value) bool {
+	if a == b {
+		return true
+	}
+	switch x := a.(type) {
+	case *ssa.FieldAddr:
+		y, ok := b.(*ssa.FieldAddr)
+		return ok && x.Field == y.Field && (x.X == y.X || sameAddr(x.X, y.X))
+	case *ssa.IndexAddr:
+		y, ok := b.(*ssa.IndexAddr)
+		return ok && x.Index == y.Index && (x.X == y.X || sameAddr(x.X, y.X))
+	case *ssa.UnOp:
+		y, ok := b.(*ssa.UnOp)
+		return ok && x.Op == y.Op && sameAddr(x.X, y.X)
+	}
+	return false
+}
